@@ -28,6 +28,8 @@ type cenv struct {
 	// skipParams: resolveLocal ignores definitions that are the parameter itself
 	skipParams bool
 	inOld      bool // inside old(...): names mean entry values
+	// fvCells: captured variables held by address (name -> pointer to the cell)
+	fvCells map[string]Val
 }
 
 type cevalErr struct{ msg string }
@@ -50,6 +52,10 @@ func (x *vc) contractEnv(fr *frame, st *state, hdr *ssa.BasicBlock) *cenv {
 			// captured variables are held by address; in contracts the source name means the variable's value
 			if _, isPtr := fv.Type().Underlying().(*types.Pointer); isPtr && v.T != "" {
 				env.vars[fv.Name()] = x.load(st, v)
+				if env.fvCells == nil {
+					env.fvCells = map[string]Val{}
+				}
+				env.fvCells[fv.Name()] = v
 			} else {
 				env.vars[fv.Name()] = v
 			}
@@ -383,6 +389,11 @@ func (x *vc) toF64(v Val) Val {
 func (x *vc) evalIdent(env *cenv, name string) Val {
 	if v, ok := env.bound[name]; ok {
 		return v
+	}
+	// a captured variable (held by address): its value in the state the expression is evaluated in (the entry state
+	// inside old(...))
+	if cell, ok := env.fvCells[name]; ok && env.st != nil {
+		return x.load(env.st, cell)
 	}
 	if env.hdr != nil && env.fr != nil {
 		// "$pos": byte offset of the string range iterator of this loop
@@ -1067,6 +1078,19 @@ func (x *vc) globalValue(fr *frame, st *state, g *ssa.Global) (Val, bool) {
 	}
 	// initialised by a call to a function under contract: the (immutable) variable satisfies that function's
 	// postconditions, with the parameters bound to the constant arguments of the call
+	if x.srt.sortOf(et) == sIface && strings.HasSuffix(et.String(), "reflect.Type") {
+		// var typeX = reflect.TypeOf((*T)(nil)).Elem() / reflect.MapOf(typeK, typeV) / ...: the immutable descriptor of
+		// a type that the initialiser determines
+		if t := x.rtypeOfInit(init, info, 0); t != nil {
+			v := x.freshVal("glob_"+g.Name(), et, st)
+			x.needDecl("(declare-fun rtype_id (Iface) Int)")
+			x.assume("true", and(not(eq(app("itag", v.T), "0")), not(eq(app("ival", v.T), "0")), eq(app("rtype_id", v.T), smtInt(int64(x.srt.typeID(t))))))
+			x.kindFact(t)
+			cache[g] = &v
+			x.trusted["const: immutable package variable "+g.Pkg.Pkg.Name()+"."+g.Name()+" holds the reflect.Type descriptor of "+t.String()+" built by its initialiser (reflect.TypeOf/Elem/MapOf/SliceOf/PtrTo as documented; no store outside init found by scan)"] = true
+			return v, true
+		}
+	}
 	if call, ok := init.(*ast.CallExpr); ok {
 		// var ErrX = errors.New("...") : an immutable, non-nil error value of its own (a fresh pointer: distinct from
 		// every other such variable)
